@@ -1076,16 +1076,144 @@ Proof.
     destruct (is_base_name (d_name d)); cbn; repeat split; auto.
 Qed.
 
+(* ---- the variants' own migrate entry points *)
+Definition same_tokens_info (d d' : deployed) : Prop :=
+  d_admin d' = d_admin d /\
+  tokens (d_st d') = tokens (d_st d) /\ token_count (d_st d') = token_count (d_st d) /\
+  operators (d_st d') = operators (d_st d) /\ own (d_st d') = own (d_st d) /\
+  info (d_st d') = info (d_st d) /\ frozen (d_st d') = frozen (d_st d).
+
+Lemma base_lib_ok nw d d' :
+  base_lib_migrate nw d = Ok d' ->
+  d_ct d' = d_ct d /\ d_name d = NBase /\ d_name d' = NBase /\
+  parse_version sg721_base__CONTRACT_VERSION = Some (d_ver d') /\
+  same_tokens_info d d' /\
+  md_frozen (d_st d') = md_frozen (d_st d) /\ md_enabled (d_st d') = md_enabled (d_st d) /\
+  (if str_ltb (ver_str (d_ver d)) (ver_str (3, 1, 0))
+   then DAY_NS <= nw /\ royalty_updated_at (d_st d') = nw - DAY_NS
+   else royalty_updated_at (d_st d') = royalty_updated_at (d_st d)).
+Proof.
+  unfold base_lib_migrate, same_tokens_info. intros H.
+  destruct (cwname_eqb (d_name d) NBase) eqn:En; cbn [negb] in H; [|discriminate H].
+  assert (Hn : d_name d = NBase) by (destruct (d_name d); simpl in En; try discriminate; reflexivity).
+  destruct (str_ltb (ver_str (d_ver d)) sg721_base__CONTRACT_VERSION); cbn [negb] in H; [|discriminate H].
+  destruct (str_ltb (ver_str (d_ver d)) (ver_str (3, 0, 0))); [discriminate H|].
+  destruct (parse_version sg721_base__CONTRACT_VERSION) as [cur|]; [|discriminate H].
+  destruct (str_ltb (ver_str (d_ver d)) (ver_str (3, 1, 0))).
+  - destruct (nw <? DAY_NS) eqn:Ed; cbn [bind] in H; [discriminate H|]. apply N.ltb_ge in Ed.
+    inversion H; subst; clear H. cbn. repeat split; auto.
+  - cbn [bind] in H. inversion H; subst; clear H. cbn. repeat split; auto.
+Qed.
+
+Lemma onchain_ok d d' :
+  onchain_migrate d = Ok d' ->
+  d' = d \/ (d_ct d' = d_ct d /\ d_admin d' = d_admin d /\ d_name d' = NOther 1 /\ d_st d' = d_st d).
+Proof.
+  unfold onchain_migrate. intros H.
+  destruct (parse_version sg721_metadata_onchain__EARLIEST_VERSION) as [v0|]; [|discriminate H].
+  destruct (parse_version sg721_metadata_onchain__CONTRACT_VERSION) as [cur|]; [|discriminate H].
+  destruct (parse_version sg721_metadata_onchain__TO_VERSION) as [tov|]; [|discriminate H].
+  destruct (ver_ltb (d_ver d) v0); [discriminate H|].
+  destruct (ver_ltb cur (d_ver d)); [discriminate H|].
+  destruct (ver_eqb cur (d_ver d)).
+  - inversion H; subst. left. reflexivity.
+  - destruct (ver_ltb (d_ver d) (3, 0, 0)); [discriminate H|].
+    inversion H; subst; clear H. right. cbn. auto.
+Qed.
+
+Lemma nt_ok d d' : nt_migrate d = Ok d' -> d' = d.
+Proof.
+  unfold nt_migrate. intros H.
+  destruct (str_ltb sg721_nt__CONTRACT_VERSION sg721_nt__EARLIEST_VERSION); [discriminate H|].
+  destruct (str_ltb sg721_nt__TO_VERSION sg721_nt__CONTRACT_VERSION); [discriminate H|].
+  destruct (String.eqb sg721_nt__CONTRACT_VERSION sg721_nt__TO_VERSION); [|discriminate H].
+  inversion H. reflexivity.
+Qed.
+
+(* the four ways a successful MsgMigrateContract of these histories goes *)
+Inductive migration (nw : N) (d d' : deployed) : Prop :=
+| MigUpd : migrate_to_updatable nw d = Ok d' -> migration nw d d'
+| MigBase : d_ct d = Base -> base_lib_migrate nw d = Ok d' -> migration nw d d'
+| MigOnchain : d_ct d = Onchain -> onchain_migrate d = Ok d' -> migration nw d d'
+| MigNt : d_ct d = NT -> d' = d -> migration nw d d'.
+
+Lemma migrate_self_cases nw d d' : migrate_self nw d = Ok d' -> migration nw d d'.
+Proof.
+  unfold migrate_self. destruct (d_ct d) eqn:Ec; intros H.
+  - apply MigBase; assumption.
+  - apply MigUpd; assumption.
+  - apply MigOnchain; assumption.
+  - apply MigNt; [assumption | apply nt_ok; assumption].
+Qed.
+
+Lemma same_tokens_info_refl d : same_tokens_info d d.
+Proof. unfold same_tokens_info. repeat split; reflexivity. Qed.
+
+(* no migration touches tokens, count, operators, the minter, collection info (royalties
+   included) or the collection-info freeze *)
+Lemma migration_keeps nw d d' : migration nw d d' -> same_tokens_info d d'.
+Proof.
+  intros [H | _ H | _ H | _ H].
+  - apply migrate_ok in H. unfold same_tokens_info. tauto.
+  - apply base_lib_ok in H. tauto.
+  - apply onchain_ok in H. destruct H as [-> | (_ & Ha & _ & Hs)]; [apply same_tokens_info_refl|].
+    unfold same_tokens_info. rewrite Hs. repeat split; auto.
+  - subst. apply same_tokens_info_refl.
+Qed.
+
+(* which migrations move the royalty anchor: the sg721-updatable migrate for a recorded
+   version (semver-)below 3.1.0 and Sg721Contract::migrate (sg721-base) for a recorded version
+   string-below "3.1.0"; the metadata-onchain and sg721-nt migrates never do *)
+Lemma migration_anchor nw d d' :
+  migration nw d d' ->
+  royalty_updated_at (d_st d') = royalty_updated_at (d_st d) \/
+  (DAY_NS <= nw /\ royalty_updated_at (d_st d') = nw - DAY_NS /\
+   ((d_ct d' = Updatable /\ ver_ltb (d_ver d) (3, 1, 0) = true) \/
+    (d_ct d = Base /\ d_ct d' = Base /\ str_ltb (ver_str (d_ver d)) (ver_str (3, 1, 0)) = true))).
+Proof.
+  intros [H | Hc H | _ H | _ H].
+  - apply migrate_ok in H. destruct H as (Hct & _ & _ & _ & _ & _ & _ & _ & _ & _ & _ & _ & Ha).
+    destruct (ver_ltb (d_ver d) (3, 1, 0)); [right | left]; tauto.
+  - apply base_lib_ok in H. destruct H as (Hct & _ & _ & _ & _ & _ & _ & Ha).
+    destruct (str_ltb (ver_str (d_ver d)) (ver_str (3, 1, 0))); [right | left; exact Ha].
+    destruct Ha as [Ha1 Ha2]. split; [exact Ha1|]. split; [exact Ha2|]. right. rewrite Hct. auto.
+  - apply onchain_ok in H. destruct H as [-> | (_ & _ & _ & Hs)]; left; [reflexivity | rewrite Hs; reflexivity].
+  - subst. left. reflexivity.
+Qed.
+
+Lemma onchain_nt_migrate_keeps_state nw d d' :
+  (d_ct d = Onchain \/ d_ct d = NT) -> migrate_self nw d = Ok d' -> d_st d' = d_st d /\ d_ct d' = d_ct d.
+Proof.
+  unfold migrate_self. intros [Hc|Hc] H; rewrite Hc in H.
+  - apply onchain_ok in H. destruct H as [-> | (Hct & _ & _ & Hs)]; auto.
+  - apply nt_ok in H. subst. auto.
+Qed.
+
 Lemma dstep_ok self e a d d' ms :
   dstep self e a d = Ok (d', ms) ->
   (exists o s', a = ACall o /\ step (d_ct d) self e o (d_st d) = Ok (s', ms) /\ d' = with_state d s') \/
-  (a = AMigrate /\ ms = [] /\ d_admin d = sender e /\ migrate_to_updatable (now e) d = Ok d').
+  (a = AMigrate /\ ms = [] /\ d_admin d = sender e /\ migrate_to_updatable (now e) d = Ok d') \/
+  (a = AMigrateSelf /\ ms = [] /\ d_admin d = sender e /\ migrate_self (now e) d = Ok d').
 Proof.
-  destruct a as [o|]; simpl; intros H.
+  destruct a as [o| |]; simpl; intros H.
   - apply bind_ok in H. destruct H as [[s' ms'] [Hs H]]. inversion H; subst; clear H.
     left. exists o, s'. auto.
   - destruct (d_admin d =? sender e) eqn:Ea; [|discriminate]. apply N.eqb_eq in Ea.
-    apply bind_ok in H. destruct H as [d1 [Hm H]]. inversion H; subst; clear H. right. auto.
+    apply bind_ok in H. destruct H as [d1 [Hm H]]. inversion H; subst; clear H. right. left. auto.
+  - destruct (d_admin d =? sender e) eqn:Ea; [|discriminate]. apply N.eqb_eq in Ea.
+    apply bind_ok in H. destruct H as [d1 [Hm H]]. inversion H; subst; clear H. right. right. auto.
+Qed.
+
+(* a transaction is a call or a migration by the admin *)
+Lemma dstep_cases self e a d d' ms :
+  dstep self e a d = Ok (d', ms) ->
+  (exists o s', a = ACall o /\ step (d_ct d) self e o (d_st d) = Ok (s', ms) /\ d' = with_state d s') \/
+  ((a = AMigrate \/ a = AMigrateSelf) /\ ms = [] /\ d_admin d = sender e /\ migration (now e) d d').
+Proof.
+  intros H. apply dstep_ok in H. destruct H as [H | [(Ha & Hm & Had & H) | (Ha & Hm & Had & H)]].
+  - left. exact H.
+  - right. repeat split; auto. apply MigUpd. exact H.
+  - right. repeat split; auto. apply migrate_self_cases. exact H.
 Qed.
 
 Lemma dapply_cases self d ea :
@@ -1109,10 +1237,10 @@ Definition d_tokens_ok (d : deployed) : Prop := count_inv (d_st d) /\ keys_uniqu
 Lemma d_tokens_ok_step self e a d d' ms :
   d_tokens_ok d -> dstep self e a d = Ok (d', ms) -> d_tokens_ok d'.
 Proof.
-  intros [Hc Hk] H. apply dstep_ok in H.
+  intros [Hc Hk] H. apply dstep_cases in H.
   destruct H as [(o & s' & _ & Hs & ->) | (_ & _ & _ & Hm)].
   - split; simpl; [eapply count_inv_step; eauto | eapply keys_unique_step; eauto].
-  - apply migrate_ok in Hm. destruct Hm as (_ & _ & _ & _ & _ & Ht & Hn & _).
+  - apply migration_keeps in Hm. destruct Hm as (_ & Ht & Hn & _).
     unfold d_tokens_ok, count_inv, keys_unique in *. rewrite Ht, Hn. auto.
 Qed.
 
@@ -1124,27 +1252,29 @@ Proof.
   intros; eapply d_tokens_ok_step; eauto.
 Qed.
 
-(* a migration touches neither tokens, count, operators, ownership, collection info nor the
-   collection-info freeze *)
-Lemma migrate_keeps self e d d' ms :
-  dstep self e AMigrate d = Ok (d', ms) ->
-  d_admin d = sender e /\ d_ct d' = Updatable /\
+(* a migration (to the updatable code or with the contract's own code) touches neither
+   tokens, count, operators, ownership, collection info nor the collection-info freeze *)
+Lemma migrate_keeps self e a d d' ms :
+  a = AMigrate \/ a = AMigrateSelf ->
+  dstep self e a d = Ok (d', ms) ->
+  d_admin d = sender e /\
   tokens (d_st d') = tokens (d_st d) /\ token_count (d_st d') = token_count (d_st d) /\
   operators (d_st d') = operators (d_st d) /\ own (d_st d') = own (d_st d) /\
   info (d_st d') = info (d_st d) /\ frozen (d_st d') = frozen (d_st d).
 Proof.
-  intros H. apply dstep_ok in H. destruct H as [(o & s' & Ha & _) | (_ & _ & Had & Hm)]; [discriminate|].
-  apply migrate_ok in Hm. tauto.
+  intros Ha H. apply dstep_cases in H.
+  destruct H as [(o & s' & Hc & _) | (_ & _ & Had & Hm)]; [destruct Ha; congruence|].
+  apply migration_keeps in Hm. unfold same_tokens_info in Hm. tauto.
 Qed.
 
 Lemma d_frozen_step self e a d d' ms :
   frozen (d_st d) = true -> dstep self e a d = Ok (d', ms) ->
   creator_fields (d_st d') = creator_fields (d_st d) /\ frozen (d_st d') = true.
 Proof.
-  intros Hf H. apply dstep_ok in H.
+  intros Hf H. apply dstep_cases in H.
   destruct H as [(o & s' & _ & Hs & ->) | (_ & _ & _ & Hm)].
   - simpl. eapply frozen_step; eauto.
-  - apply migrate_ok in Hm. destruct Hm as (_ & _ & _ & _ & _ & _ & _ & _ & _ & Hi & Hz & _).
+  - apply migration_keeps in Hm. destruct Hm as (_ & _ & _ & _ & _ & Hi & Hz).
     unfold creator_fields. rewrite Hi, Hz. auto.
 Qed.
 
@@ -1161,10 +1291,10 @@ Qed.
 Lemma d_keys_step self e a d d' ms :
   keys_unique (d_st d) -> dstep self e a d = Ok (d', ms) -> keys_unique (d_st d').
 Proof.
-  intros Hk H. apply dstep_ok in H.
+  intros Hk H. apply dstep_cases in H.
   destruct H as [(o & s' & _ & Hs & ->) | (_ & _ & _ & Hm)].
   - simpl. eapply keys_unique_step; eauto.
-  - apply migrate_ok in Hm. destruct Hm as (_ & _ & _ & _ & _ & Ht & _).
+  - apply migration_keeps in Hm. destruct Hm as (_ & Ht & _).
     unfold keys_unique in *. rewrite Ht. exact Hk.
 Qed.
 
@@ -1205,8 +1335,8 @@ Definition md_sealed (d : deployed) : Prop :=
 Lemma md_sealed_step self e a d d' ms :
   md_sealed d -> dstep self e a d = Ok (d', ms) -> md_sealed d'.
 Proof.
-  intros (Hc & Hn & Hf) H. apply dstep_ok in H.
-  destruct H as [(o & s' & _ & Hs & ->) | (_ & _ & _ & Hm)].
+  intros (Hc & Hn & Hf) H. apply dstep_cases in H.
+  destruct H as [(o & s' & _ & Hs & ->) | (_ & _ & _ & [Hm | Hb _ | Hb _ | Hb _])]; try congruence.
   - unfold md_sealed. simpl. repeat split; auto. eapply md_frozen_step; eauto.
   - apply migrate_ok in Hm. destruct Hm as (Hc' & Hn' & _ & _ & _ & _ & _ & _ & _ & _ & _ & Hmd & _).
     rewrite Hn in Hmd. destruct Hmd as [Hmd _].
@@ -1223,30 +1353,31 @@ Proof.
   - destruct (d_token_constant self id md_sealed uri_tag) with (l := l) (d := d) (t := t)
       as [t' [H1 H2]]; auto.
     + intros; eapply md_sealed_step; eauto.
-    + intros e a d0 d1 ms t0 t1 (Hc & Hn & Hm) Hu0 H Hf0 Hf1. apply dstep_ok in H.
+    + intros e a d0 d1 ms t0 t1 (Hc & Hn & Hm) Hu0 H Hf0 Hf1. apply dstep_cases in H.
       destruct H as [(o & s' & _ & Hst & ->) | (_ & _ & _ & Hmg)].
       * simpl in Hf1. rewrite Hc in Hst.
         destruct (step_token _ _ _ _ _ _ _ _ _ Hu0 Hst Hf0) as [[_ Hn0] | (t2 & H2 & [Huri | (_ & _ & Hm0 & _)] & _)].
         -- congruence.
         -- unfold uri_tag. rewrite H2 in Hf1. inversion Hf1; subst. rewrite Huri. reflexivity.
         -- congruence.
-      * apply migrate_ok in Hmg. destruct Hmg as (_ & _ & _ & _ & _ & Ht & _).
+      * apply migration_keeps in Hmg. destruct Hmg as (_ & Ht & _).
         rewrite Ht in Hf1. congruence.
     + exists t'. split; [exact H1 | apply uri_tag_inj; exact H2].
   - apply (drun_invariant md_sealed self); [|exact Hs]. intros; eapply md_sealed_step; eauto.
 Qed.
 
-(* sg721-nt cannot be migrated to the updatable code (its cw2 name is not accepted), so the
-   owner of a token stays constant between mint and burn over histories with migrate
-   attempts as well *)
+(* sg721-nt cannot be migrated to the updatable code (its cw2 name is not accepted) and its
+   own migrate changes nothing, so the owner of a token stays constant between mint and
+   burn over histories with migrate attempts as well *)
 Definition is_nt (d : deployed) : Prop := d_ct d = NT /\ compatible_name (d_name d) = false.
 
 Lemma is_nt_step self e a d d' ms : is_nt d -> dstep self e a d = Ok (d', ms) -> is_nt d'.
 Proof.
-  intros (Hc & Hn) H. apply dstep_ok in H.
-  destruct H as [(o & s' & _ & Hs & ->) | (_ & _ & _ & Hm)].
+  intros (Hc & Hn) H. apply dstep_cases in H.
+  destruct H as [(o & s' & _ & Hs & ->) | (_ & _ & _ & [Hm | Hb _ | Hb _ | _ ->])]; try congruence.
   - split; assumption.
   - apply migrate_ok in Hm. destruct Hm as (_ & _ & _ & _ & Hcn & _). congruence.
+  - split; assumption.
 Qed.
 
 Lemma d_nt_owner_constant self id l d t :
@@ -1258,14 +1389,14 @@ Proof.
   destruct (d_token_constant self id is_nt owner_tag) with (l := l) (d := d) (t := t)
     as [t' [H1 H2]]; auto.
   - intros; eapply is_nt_step; eauto.
-  - intros e a d0 d1 ms t0 t1 (Hc & Hcn) Hu0 H Hf0 Hf1. apply dstep_ok in H.
+  - intros e a d0 d1 ms t0 t1 (Hc & Hcn) Hu0 H Hf0 Hf1. apply dstep_cases in H.
     destruct H as [(o & s' & _ & Hst & ->) | (_ & _ & _ & Hmg)].
     + simpl in Hf1. rewrite Hc in Hst.
       destruct (step_token _ _ _ _ _ _ _ _ _ Hu0 Hst Hf0) as [[_ Hn0] | (t2 & H2 & _ & [Ho | [_ Hx]])].
       * congruence.
       * unfold owner_tag. congruence.
       * congruence.
-    + apply migrate_ok in Hmg. destruct Hmg as (_ & _ & _ & _ & Hcn' & _). congruence.
+    + apply migration_keeps in Hmg. destruct Hmg as (_ & Ht & _). rewrite Ht in Hf1. congruence.
   - exists t'. split; [exact H1|]. unfold owner_tag in H2. congruence.
 Qed.
 
@@ -1273,12 +1404,12 @@ Qed.
 Lemma d_royalty_step self e a d d' ms :
   dstep self e a d = Ok (d', ms) ->
   (exists o, a = ACall o /\ step (d_ct d) self e o (d_st d) = Ok (d_st d', ms)) \/
-  (a = AMigrate /\ ci_royalty (info (d_st d')) = ci_royalty (info (d_st d))).
+  ((a = AMigrate \/ a = AMigrateSelf) /\ ci_royalty (info (d_st d')) = ci_royalty (info (d_st d))).
 Proof.
-  intros H. apply dstep_ok in H.
-  destruct H as [(o & s' & -> & Hs & ->) | (-> & _ & _ & Hm)].
+  intros H. apply dstep_cases in H.
+  destruct H as [(o & s' & -> & Hs & ->) | (Ha & _ & _ & Hm)].
   - left. exists o. auto.
-  - right. apply migrate_ok in Hm. destruct Hm as (_ & _ & _ & _ & _ & _ & _ & _ & _ & Hi & _).
+  - right. apply migration_keeps in Hm. destruct Hm as (_ & _ & _ & _ & _ & Hi & _).
     rewrite Hi. auto.
 Qed.
 
@@ -1324,15 +1455,45 @@ Proof.
   intros Ho Hm Hbig. simpl. rewrite (raise_refused (d_ct d) self e m new old (d_st d) Ho Hm Hbig). reflexivity.
 Qed.
 
-Lemma migrate_keeps_royalty self e d d' ms :
-  dstep self e AMigrate d = Ok (d', ms) -> ci_royalty (info (d_st d')) = ci_royalty (info (d_st d)).
-Proof. intros H. apply migrate_keeps in H. destruct H as (_ & _ & _ & _ & _ & _ & Hi & _). rewrite Hi. reflexivity. Qed.
+Lemma migrate_keeps_royalty self e a d d' ms :
+  a = AMigrate \/ a = AMigrateSelf ->
+  dstep self e a d = Ok (d', ms) -> ci_royalty (info (d_st d')) = ci_royalty (info (d_st d)).
+Proof.
+  intros Ha H. apply (migrate_keeps _ _ _ _ _ _ Ha) in H.
+  destruct H as (_ & _ & _ & _ & _ & Hi & _). rewrite Hi. reflexivity.
+Qed.
 
-(* cadence: a migration re-creates the anchor only for cw2 versions below 3.1.0 (which
-   predate it); a deployment at or above 3.1.0 stays there (a migration records the
-   workspace version), so over its whole future accepted royalty changes are >= 24 h apart *)
+(* what one migration does to the cadence anchor, per variant *)
+Lemma d_migration_anchor self e a d d' ms :
+  a = AMigrate \/ a = AMigrateSelf ->
+  dstep self e a d = Ok (d', ms) ->
+  royalty_updated_at (d_st d') = royalty_updated_at (d_st d) \/
+  (DAY_NS <= now e /\ royalty_updated_at (d_st d') = now e - DAY_NS /\
+   ((d_ct d' = Updatable /\ ver_ltb (d_ver d) (3, 1, 0) = true) \/
+    (d_ct d = Base /\ d_ct d' = Base /\ str_ltb (ver_str (d_ver d)) (ver_str (3, 1, 0)) = true))).
+Proof.
+  intros Ha H. apply dstep_cases in H.
+  destruct H as [(o & s' & Hc & _) | (_ & _ & _ & Hm)]; [destruct Ha; congruence|].
+  apply migration_anchor. exact Hm.
+Qed.
+
+Lemma d_onchain_nt_self_migrate_keeps_state self e d d' ms :
+  d_ct d = Onchain \/ d_ct d = NT ->
+  dstep self e AMigrateSelf d = Ok (d', ms) -> d_st d' = d_st d /\ d_ct d' = d_ct d.
+Proof.
+  intros Hc H. apply dstep_ok in H.
+  destruct H as [(o & s' & Ha & _) | [(Ha & _) | (_ & _ & _ & Hm)]]; try discriminate.
+  eapply onchain_nt_migrate_keeps_state; eauto.
+Qed.
+
+(* cadence.  A deployment is `anchored` when no migration it can undergo re-creates the
+   anchor: its recorded version is not below 3.1.0 (neither as a semver nor as a string), or
+   it runs the metadata-onchain / nt code under a name the updatable migrate refuses (those
+   two never reach a migrate with the 3.1.0 step; metadata-onchain records 3.0.0 after its
+   own migrate, which is why the version alone would not do).  Every fresh deployment is
+   anchored and stays so; over its whole future accepted royalty changes are >= 24 h apart. *)
 Definition is_royalty_action (a : action) : bool :=
-  match a with ACall o => is_royalty_change o | AMigrate => false end.
+  match a with ACall o => is_royalty_change o | _ => false end.
 
 Fixpoint d_accepted_changes (self : addr) (d : deployed) (l : list (env * action)) : list N :=
   match l with
@@ -1346,10 +1507,47 @@ Fixpoint d_accepted_changes (self : addr) (d : deployed) (l : list (env * action
       end
   end.
 
-Definition anchored (d : deployed) : Prop := ver_ltb (d_ver d) (3, 1, 0) = false.
+Definition ver_anchored (v : version) : Prop :=
+  ver_ltb v (3, 1, 0) = false /\ str_ltb (ver_str v) (ver_str (3, 1, 0)) = false.
 
-Lemma cur_version_anchored : ver_ltb CUR_VERSION (3, 1, 0) = false.
-Proof. vm_compute. reflexivity. Qed.
+Definition anchored (d : deployed) : Prop :=
+  ver_anchored (d_ver d) \/
+  ((d_ct d = Onchain \/ d_ct d = NT) /\ compatible_name (d_name d) = false).
+
+Lemma cur_version_anchored : ver_anchored CUR_VERSION.
+Proof. vm_compute. auto. Qed.
+
+Lemma base_cur_anchored cur :
+  parse_version sg721_base__CONTRACT_VERSION = Some cur -> ver_anchored cur.
+Proof. intros H. vm_compute in H. inversion H; subst. vm_compute. auto. Qed.
+
+Lemma anchored_migration nw d d' :
+  anchored d -> migration nw d d' ->
+  anchored d' /\ royalty_updated_at (d_st d') = royalty_updated_at (d_st d).
+Proof.
+  intros Ha [H | Hc H | Hc H | Hc H].
+  - apply migrate_ok in H.
+    destruct H as (_ & _ & Hver & _ & Hcn & _ & _ & _ & _ & _ & _ & _ & Hanchor).
+    destruct Ha as [[Hv _] | [_ Hn]]; [|congruence].
+    rewrite Hv in Hanchor. split; [|exact Hanchor].
+    left. rewrite Hver. exact cur_version_anchored.
+  - apply base_lib_ok in H. destruct H as (_ & _ & _ & Hp & _ & _ & _ & Hanchor).
+    destruct Ha as [[_ Hs] | [[Hx|Hx] _]]; try congruence.
+    rewrite Hs in Hanchor. split; [|exact Hanchor].
+    left. eapply base_cur_anchored; eauto.
+  - apply onchain_ok in H. destruct H as [-> | (Hct & _ & Hn & Hs)]; [auto|].
+    split; [|rewrite Hs; reflexivity].
+    right. rewrite Hct, Hn. auto.
+  - subst. auto.
+Qed.
+
+Lemma anchored_step self e a d d' ms : anchored d -> dstep self e a d = Ok (d', ms) -> anchored d'.
+Proof.
+  intros Ha H. apply dstep_cases in H.
+  destruct H as [(o & s' & _ & _ & ->) | (_ & _ & _ & Hm)].
+  - exact Ha.
+  - eapply anchored_migration; eauto.
+Qed.
 
 Lemma d_cadence self l : forall d,
   anchored d ->
@@ -1357,18 +1555,17 @@ Lemma d_cadence self l : forall d,
 Proof.
   induction l as [|[e a] l IH]; intros d Hv; simpl; [exact I|].
   destruct (dstep self e a d) as [[d' ms]|] eqn:H; [|apply IH; exact Hv].
-  apply dstep_ok in H.
-  destruct H as [(o & s' & -> & Hs & ->) | (-> & _ & _ & Hm)].
+  pose proof (anchored_step _ _ _ _ _ _ Hv H) as Hv'.
+  apply dstep_cases in H.
+  destruct H as [(o & s' & -> & Hs & ->) | ([-> | ->] & _ & _ & Hm)].
   - simpl. apply step_exec in Hs. destruct Hs as [_ Hs].
     destruct (exec_royalty _ _ _ _ _ _ Hs) as [(Hc & _ & Ht) | (m & new & -> & Hmm & Hu & _ & Ht)].
-    + rewrite Hc. rewrite <- Ht. apply (IH (with_state d s')). exact Hv.
+    + rewrite Hc. rewrite <- Ht. apply (IH (with_state d s')). exact Hv'.
     + simpl. rewrite Hmm. simpl. split.
       * apply update_royalty_ok in Hu. tauto.
-      * rewrite <- Ht. apply (IH (with_state d s')). exact Hv.
-  - simpl. apply migrate_ok in Hm.
-    destruct Hm as (_ & _ & Hver & _ & _ & _ & _ & _ & _ & _ & _ & _ & Hanchor).
-    unfold anchored in Hv. rewrite Hv in Hanchor. rewrite <- Hanchor.
-    apply IH. unfold anchored. rewrite Hver. exact cur_version_anchored.
+      * rewrite <- Ht. apply (IH (with_state d s')). exact Hv'.
+  - simpl. destruct (anchored_migration _ _ _ Hv Hm) as [_ Ht]. rewrite <- Ht. apply IH. exact Hv'.
+  - simpl. destruct (anchored_migration _ _ _ Hv Hm) as [_ Ht]. rewrite <- Ht. apply IH. exact Hv'.
 Qed.
 
 Lemma d_cadence_any_two self l d :
@@ -1381,7 +1578,7 @@ Definition fresh (ct : ctype) (admin : addr) (s : state) : deployed :=
   mkDep ct admin (name_of ct) CUR_VERSION s.
 
 Lemma fresh_anchored ct admin s : anchored (fresh ct admin s).
-Proof. exact cur_version_anchored. Qed.
+Proof. left. exact cur_version_anchored. Qed.
 
 Lemma d_cadence_from_creation self ct admin t b f m c s l :
   instantiate ct t b f m c = Ok s ->
